@@ -305,10 +305,7 @@ Fixpoint match_schc_loop (rules : list rule) (s : bits) : option rule :=
     else match_schc_loop rs s
   end.
 Definition match_schc_packet (rules : list rule) (s : bits) : res rule :=
-  match rules with
-  | [] => Exc UnboundLocalError     (* rule_id is unbound when the loop body never ran *)
-  | _ => match match_schc_loop rules s with Some r => Ok r | None => Exc RuleIDMatchError end
-  end.
+  match match_schc_loop rules s with Some r => Ok r | None => Exc RuleIDMatchError end.
 
 (* ---- ContextManager ------------------------------------------------------------------------- *)
 Inductive strategy := FIRST | BEST.
